@@ -10,8 +10,139 @@
 -/
 import LispModel.Conc
 import LispModel.Proofs.ConcBaseline
+import LispModel.Proofs.ConcAtomProgress
+import LispModel.Proofs.ConcAtomFail
+import LispModel.Proofs.ConcAtomSum
+import LispModel.Proofs.ConcAtomRes
+import LispModel.Proofs.LinSound
+import LispModel.Spec.ConcObj
 namespace LispModel.Props.C09
-open LispModel.Conc
+open LispModel.Conc Proofs.ConcAtom
+
+/-! ### the fixed programs (`prog`): any number of threads, any interleaving
+
+`Reachable progs vals s`: `s` is reached by some schedule of the micro-op semantics from the initial
+state in which thread `t` is to issue the operations `progs[t]` (deref / reset! / swap! with pure,
+failing, atom-reading — the swapped atom included — or other-atom-updating functions / print) and atom
+`a` holds `vals a`. -/
+
+/-- lock discipline: the write lock of an atom is held exactly by the thread whose top frame is in a
+    write section of that atom, read locks exactly by the threads in a read section, a writer excludes
+    every reader, frames below the top wait at `callback` and hold nothing -/
+theorem lock_discipline {progs vals s} (hr : Reachable progs vals s) : LockInv s :=
+  Proofs.ConcAtom.lock_discipline hr
+
+/-- mutual exclusion: while a thread holds the write lock no thread holds a read lock; two write
+    sections (of one atom) are never occupied by different threads -/
+theorem mutual_exclusion {progs vals s} (hr : Reachable progs vals s) (a : Nat) :
+    ((s.atoms a).w ≠ none → (s.atoms a).r = []) ∧
+    (∀ t u top top' rest rest', (s.threads t).stack = top :: rest → (s.threads u).stack = top' :: rest' →
+      top.op.atom = a → top'.op.atom = a → holdsW top = true → holdsW top' = true → t = u) := by
+  have h := Proofs.ConcAtom.lock_discipline hr
+  refine ⟨h.excl a, ?_⟩
+  intro t u top top' rest rest' h1 h2 h3 h4 h5 h6
+  have w1 := (h.w_iff a t).mpr ⟨top, rest, h1, h3, h5⟩
+  have w2 := (h.w_iff a u).mpr ⟨top', rest', h2, h4, h6⟩
+  rw [w1] at w2; cases w2; rfl
+
+/-- linearizability, invariant style: the log of linearization events (deref/print: the read under the
+    read lock; reset!: the write under the write lock; swap!: the validated install; failing swap!:
+    the failure) — each taken by a step of the operation itself, i.e. between its invocation and its
+    response — is a legal history of the sequential atom starting from the initial values and ending
+    in the current ones: in particular every swap! install replaced exactly the then-current value -/
+theorem atom_linearizable {progs vals s} (hr : Reachable progs vals s) :
+    ∃ cur, replay s.lin vals = some cur ∧ ∀ a, cur a = (s.atoms a).val :=
+  (atom_invariant hr).lin
+
+/-- the validated install: a swap! about to write `Val` holds the write lock, its saved version equals
+    the current one and the value it applied its function to is still the current value -/
+theorem install_sees_current {progs vals s} (hr : Reachable progs vals s) {t : Nat} {fr : Frame}
+    {rest : List Frame} (hst : (s.threads t).stack = fr :: rest)
+    (hn : fr.op.name = .swap) (hnr : fr.returning = false) (hpc : fr.pc = 7) :
+    fr.old = (s.atoms fr.op.atom).val ∧ fr.sver = (s.atoms fr.op.atom).ver ∧
+    (s.atoms fr.op.atom).w = some t := by
+  have h := atom_invariant hr
+  obtain ⟨-, h2, h3⟩ := Proofs.ConcAtom.install_sees_current h.lock h.ver hst hn hnr hpc
+  have hc := h.chk t fr rest hst hn hnr hpc
+  exact ⟨h2 hc, hc, h3⟩
+
+/-- what a swap! with a pure update function `g` installs is `g` applied to the current value, under the
+    write lock (so no other write happens between the validation and the install) -/
+theorem swap_installs_f_of_current {progs vals s} (hr : Reachable progs vals s) {t a : Nat} {g : Nat → Nat}
+    {fr : Frame} {rest : List Frame} (hst : (s.threads t).stack = fr :: rest)
+    (hop : fr.op = .swap a (.app g)) (hnr : fr.returning = false) (hpc : fr.pc = 7) :
+    fr.res = g (s.atoms a).val ∧ (s.atoms a).w = some t :=
+  Proofs.ConcAtom.swap_installs_f_of_current hr hst hop hnr hpc
+
+/-- no lost update: when every operation of every thread is `swap! inc`, in every reachable state the
+    value of atom `a` is its initial value plus the number of successful `swap! inc` responses on `a`
+    summed over all threads, plus the swap!s that have installed but not yet returned -/
+theorem no_lost_update {progs vals s} (hr : Reachable progs vals s)
+    (hall : ∀ ops ∈ progs, ∀ op ∈ ops, isInc op) (a : Nat) :
+    (s.atoms a).val = vals a +
+      sumTo progs.length (fun t => okOn a (s.threads t).out + installedOn a (s.threads t).stack) :=
+  Proofs.ConcAtom.no_lost_update hr hall a
+
+/-- … once all threads are done: n successful `swap! inc` ⇒ final value = initial value + n -/
+theorem no_lost_update_quiescent {progs vals s} (hr : Reachable progs vals s)
+    (hall : ∀ ops ∈ progs, ∀ op ∈ ops, isInc op) (hq : ∀ t, (s.threads t).stack = []) (a : Nat) :
+    (s.atoms a).val = vals a + sumTo progs.length (fun t => okOn a (s.threads t).out) :=
+  Proofs.ConcAtom.no_lost_update_quiescent hr hall hq a
+
+/-- the checker the `conc` engine runs on every recorded history is sound: an accepted history is
+    linearizable w.r.t. the sequential atom (Spec/ConcObj.lean) with the observed final values -/
+theorem linCheck_sound (loose : Bool) (finals init : List Int) (h : List (Spec.Lin.HOp Spec.ConcObj.AtomOp))
+    (hc : Spec.Lin.linCheck Spec.ConcObj.atomObj (Spec.ConcObj.atomFinal loose finals) init h = true) :
+    Spec.Lin.Linearizable Spec.ConcObj.atomObj (Spec.ConcObj.atomFinal loose finals) init h :=
+  Proofs.LinSound.linCheck_sound _ _ _ _ hc
+
+/-- an update function that failed leaves the atom unchanged: from the failure to the return of the
+    swap! the thread changes no `Val` and no `version` (and holds no lock: `swap_progress`) -/
+theorem failed_update_leaves_atom {progs vals s} (hr : Reachable progs vals s) {s' : State} {t : Nat}
+    {fr : Frame} {rest : List Frame} (hst : (s.threads t).stack = fr :: rest) (hf : fr.failed = true)
+    (hs : step prog s t = some s') (a : Nat) :
+    (s'.atoms a).val = (s.atoms a).val ∧ (s'.atoms a).ver = (s.atoms a).ver :=
+  Proofs.ConcAtom.failed_update_leaves_atom (Proofs.ConcAtom.lock_discipline hr) hst hf hs a
+
+/-- every access to `Val` / `version` is made under the atom's lock (writes under the write lock) -/
+theorem atom_accesses_guarded {progs vals s} (hr : Reachable progs vals s) {t a : Nat} {l : Loc} {w : Bool}
+    (hacc : nextAccess prog s t = some (a, l, w)) :
+    (w = true → (s.atoms a).w = some t) ∧ (w = false → (s.atoms a).w = some t ∨ t ∈ (s.atoms a).r) :=
+  (Proofs.ConcAtom.lock_discipline hr).access_guarded hacc
+
+/-- data-race freedom: two threads are never both about to access the same location of the same atom
+    with one of them writing -/
+theorem atom_data_race_free {progs vals s} (hr : Reachable progs vals s) (t u : Nat) :
+    raceAt prog s t u = false :=
+  (Proofs.ConcAtom.lock_discipline hr).no_race t u
+
+/-- progress: from every reachable state in which some operation is pending, some thread has an
+    enabled step -/
+theorem swap_progress {progs vals s} (hr : Reachable progs vals s) {t : Nat} (hp : pending s t = true) :
+    ∃ u, enabled prog s u = true :=
+  (Proofs.ConcAtom.lock_discipline hr).progress hp
+
+/-- no lock is held across the update function: a swap! frame at its `callback` (about to run, or
+    running, its function — which may deref the same atom or swap another one) holds no lock, so the
+    nested operation never waits for a lock its own thread holds -/
+theorem no_lock_across_callback {progs vals s} (hr : Reachable progs vals s) {t : Nat} {fr : Frame}
+    (hfr : fr ∈ (s.threads t).stack) (hcb : (prog fr.op.name)[fr.pc]? = some .callback)
+    (hnr : fr.returning = false) : holdsW fr = false ∧ holdsR fr = false :=
+  ((Proofs.ConcAtom.lock_discipline hr).callback_holds_nothing hfr hcb hnr 0).2
+
+/-- non-vacuity: under the fixed program `(swap! a (fn [x] (+ x @a)))` on a = 5 runs to completion
+    (19 steps) and installs and returns 10 -/
+theorem fixed_self_deref_completes :
+    ((run prog (List.replicate 19 0) (init [[.swap 0 (.addDeref 0)]] (fun _ => 5))).map fun s =>
+      ((s.threads 0).out.map (·.2), (s.atoms 0).val, pending s 0)) = some ([some 10], 10, false) := by
+  decide
+
+/-- non-vacuity: the interleaving that deadlocks the baseline crossed swap does not block the fixed one -/
+theorem fixed_cross_swap_not_deadlocked :
+    reachesDeadlock prog [0, 0, 0, 0, 0, 1, 1, 1, 1, 1] Proofs.ConcBaseline.crossSwap 2 0 = false := by
+  decide
+
+/-! ### the programs of the source as it stands (baseline): counterexamples by evaluation -/
 
 /-- D13 (baseline): one thread, `(swap! a (fn [x] (+ x @a)))`: after five steps the operation is
     pending and the thread has no enabled step (it waits for a read lock on the atom it write-locked) -/
